@@ -288,21 +288,51 @@ func (fr *Frame) run(st *State, args []Val, bindings []Val) (*exitRec, *exitRec)
 }
 
 func (fr *Frame) handlePanics() *exitRec {
+	// panics raised before any defer was registered escape directly
+	var with, without []exitRec
+	for _, e := range fr.panics {
+		if len(e.st.defers) == 0 {
+			without = append(without, e)
+		} else {
+			with = append(with, e)
+		}
+	}
+	fr.panics = nil
+	var outs []exitRec
+	if len(without) > 0 {
+		outs = append(outs, without...)
+	}
+	if len(with) > 0 {
+		outs = append(outs, fr.handleDeferredPanics(with)...)
+	}
+	if len(outs) == 0 {
+		return nil
+	}
 	ex := fr.ex
 	var es []edgeState
 	var vals []Val
 	var guards []Term
-	for _, e := range fr.panics {
+	for _, e := range outs {
 		es = append(es, edgeState{e.st, tTrue})
 		vals = append(vals, e.val)
 		guards = append(guards, e.st.reach)
 	}
-	fr.panics = nil
-	ms := ex.mergeStates("panic", es)
-	pv := ex.mergeVals("panicval", vals, guards).(Sc).T
-	if len(ms.defers) == 0 {
-		return &exitRec{ms, Sc{pv}}
+	ms := ex.mergeStates("panicout", es)
+	return &exitRec{ms, ex.mergeVals("panicval", vals, guards)}
+}
+
+func (fr *Frame) handleDeferredPanics(ps []exitRec) []exitRec {
+	ex := fr.ex
+	var es []edgeState
+	var vals []Val
+	var guards []Term
+	for _, e := range ps {
+		es = append(es, edgeState{e.st, tTrue})
+		vals = append(vals, e.val)
+		guards = append(guards, e.st.reach)
 	}
+	ms := ex.mergeStates("panic", es)
+	pv := ex.scalarOf(ex.mergeVals("panicval", vals, guards))
 	ms.vars["panicking"] = pv
 	fr.inPanicDefers = true
 	ms = fr.runDefers(ms)
@@ -315,7 +345,6 @@ func (fr *Frame) handlePanics() *exitRec {
 	// panics raised while running the deferred calls escape
 	var extra []exitRec
 	extra, fr.panics = fr.panics, nil
-	var out *exitRec
 	if recovered.S != "true" {
 		ps := ms.clone()
 		ps.reach = ex.cx.name("r", and(ms.reach, not(recovered)))
@@ -324,7 +353,6 @@ func (fr *Frame) handlePanics() *exitRec {
 	if recovered.S != "false" {
 		rs := ms.clone()
 		rs.reach = ex.cx.name("r", and(ms.reach, recovered))
-		delete(rs.vars, "panicking")
 		rs.vars["panicking"] = nilIface()
 		// resume at the Recover block (returns the named results)
 		if fr.fn.Recover != nil {
@@ -340,19 +368,7 @@ func (fr *Frame) handlePanics() *exitRec {
 			fr.normal = append(fr.normal, exitRec{rs, rv})
 		}
 	}
-	if len(extra) > 0 {
-		var es2 []edgeState
-		var v2 []Val
-		var g2 []Term
-		for _, e := range extra {
-			es2 = append(es2, edgeState{e.st, tTrue})
-			v2 = append(v2, e.val)
-			g2 = append(g2, e.st.reach)
-		}
-		m2 := ex.mergeStates("panic2", es2)
-		out = &exitRec{m2, ex.mergeVals("panicval", v2, g2)}
-	}
-	return out
+	return extra
 }
 
 // runDefers executes the deferred calls of st in LIFO order.
